@@ -10,6 +10,24 @@ COMMON_TRUSTED = [
 ]
 
 PROPS = {
+    "C02": {
+        "streams": ["c02"],
+        "cli": False,
+        "trusted": ["tree-sitter re-parses the holed text to the same tree shape: decided per case on the real re-parsed pattern (skipped cases are counted), not proved"],
+        "assumptions": ["trees are the real tree-sitter parses, dumped per case; node text is the byte slice of its range"],
+    },
+    "C03": {
+        "streams": ["c03"],
+        "cli": False,
+        "trusted": ["the alignment relation in Match/Align.v is the reading of the property text (unnamed tokens are compared by kind only, as the code documents)"],
+        "assumptions": ["trees are the real tree-sitter parses, dumped per case"],
+    },
+    "C07": {
+        "streams": ["c07"],
+        "cli": False,
+        "trusted": ["tree-sitter parse of the corpus sources (node ranges are taken from the real parse)"],
+        "assumptions": ["the sigil is the single byte '$'; captured ranges are byte ranges of the document; the indentation clause is checked only for captures without blank or under-indented continuation lines (the property's own restriction)"],
+    },
     "C20": {
         "streams": ["c20"],
         "cli": False,
